@@ -27,6 +27,13 @@ pub struct Sc06 {
     /// one run per mask: bit i set = identifier i resolves to a truthy value, clear = host declines (unit)
     pub masks: Vec<u64>,
     pub max_steps: usize,
+    /// the host takes every operation the runtime offers it (deferred operators, external applies) and answers
+    /// with a marker value, instead of declining
+    #[serde(default)]
+    pub accepting: bool,
+    /// what a truthy identifier resolves to: identifier i gets palette[i % len]; empty = a unique number
+    #[serde(default)]
+    pub palette: Vec<Val>,
 }
 
 pub struct C06;
@@ -47,9 +54,14 @@ fn script_for(sc: &Sc06, mask: u64) -> HostScript {
     let mut s = HostScript::default();
     for (i, name) in sc.idents.iter().enumerate() {
         let truthy = i >= 64 || (mask >> i) & 1 == 1;
-        s.resolve.insert(symbol_value(name), if truthy { Answer::Unique } else { Answer::Decline });
+        let yes = if sc.palette.is_empty() { Answer::Unique } else { Answer::Provide(sc.palette[i % sc.palette.len()].clone()) };
+        s.resolve.insert(symbol_value(name), if truthy { yes } else { Answer::Decline });
     }
     s.resolve_default = Some(Answer::Unique);
+    if sc.accepting {
+        s.defer_default = Some(Answer::Unique);
+        s.apply_default = Some(Answer::Unique);
+    }
     s
 }
 
@@ -241,7 +253,7 @@ fn cfg_for(rng: &mut Rng) -> GenCfg {
 fn seeded_scenario(src: &str, idents: &[&str], masks: Vec<u64>) -> Vec<Sc06> {
     [false, true]
         .iter()
-        .map(|b| Sc06 { basic: *b, src: src.to_string(), input: Val::Unit, idents: idents.iter().map(|s| s.to_string()).collect(), masks: masks.clone(), max_steps: 500 })
+        .map(|b| Sc06 { basic: *b, src: src.to_string(), input: Val::Unit, idents: idents.iter().map(|s| s.to_string()).collect(), masks: masks.clone(), max_steps: 500, accepting: false, palette: vec![] })
         .collect()
 }
 
@@ -315,6 +327,25 @@ pub fn shape_tags(src: &str) -> String {
     )
 }
 
+/// values of different kinds for the identifiers of the operator programs (the first identifier is the left
+/// operand of the first operator: text, bytes, a range and a list take that place in turn)
+fn palettes() -> Vec<Vec<Val>> {
+    let sym = |k: &str| Val::Sym(symbol_value(k));
+    let keyed = Val::List(vec![Val::pair(sym("ka"), Val::Int(1)), Val::pair(sym("kb"), Val::Int(2))]);
+    let range = Val::Range(Box::new(Val::Int(0)), Box::new(Val::Int(2)));
+    vec![
+        vec![],
+        vec![Val::text("abc"), sym("ka"), keyed.clone(), range.clone()],
+        vec![Val::Bytes(b"abc".to_vec()), Val::Int(1), Val::text("x"), Val::List(vec![Val::Int(1), Val::Int(2), Val::Int(3)])],
+        vec![range, sym("kb"), Val::pair(sym("ka"), Val::Int(5)), Val::text("abc")],
+        vec![keyed, range_of(1, 1), Val::Int(0), sym("ka")],
+    ]
+}
+
+fn range_of(a: i32, b: i32) -> Val {
+    Val::Range(Box::new(Val::Int(a)), Box::new(Val::Int(b)))
+}
+
 /// every ordered pair of operators (binary, prefix, suffix, space list, comma list, conditional and apply
 /// forms) around distinct identifiers, at the top level and inside a called expression: the part of the
 /// C02 corpus that is small enough to be swept completely on every invocation
@@ -353,7 +384,11 @@ pub fn operator_pairs() -> Vec<Sc06> {
         for wrapped in [false, true] {
             let text = if wrapped { format!("{{ {} }}~~", src) } else { src.clone() };
             for basic in [false, true] {
-                out.push(Sc06 { basic, src: text.clone(), input: Val::Unit, idents: idents.clone(), masks: masks.clone(), max_steps: 300 });
+                for accepting in [false, true] {
+                    for palette in palettes() {
+                        out.push(Sc06 { basic, src: text.clone(), input: Val::Unit, idents: idents.clone(), masks: masks.clone(), max_steps: 300, accepting, palette });
+                    }
+                }
             }
         }
     }
@@ -402,7 +437,8 @@ impl Campaign for C06 {
                 _ => src,
             };
             let idents: Vec<String> = (1..=n).map(|i| format!("i{}", i)).collect();
-            return Sc06 { basic, src, input: Val::Unit, idents, masks: (0..(1u64 << n)).collect(), max_steps: 300 };
+            let palette = rng.pick(&palettes()).clone();
+            return Sc06 { basic, src, input: Val::Unit, idents, masks: (0..(1u64 << n)).collect(), max_steps: 300, accepting: rng.chance(1, 2), palette };
         }
         let cfg = cfg_for(rng);
         let keys = cfg.keys.clone();
@@ -438,7 +474,9 @@ impl Campaign for C06 {
             }
             m
         };
-        Sc06 { basic, src, input, idents, masks, max_steps: 2000 }
+        let accepting = rng.chance(1, 3);
+        let palette = if rng.chance(1, 3) { (0..4).map(|_| crate::c19::random_value(rng, 1)).collect() } else { vec![] };
+        Sc06 { basic, src, input, idents, masks, max_steps: 2000, accepting, palette }
     }
 
     fn execute(&self, sc: &Sc06) -> Outcome {
